@@ -171,6 +171,7 @@ def run_case(case):
                 if nxt * dirn <= t * dirn:
                     want.append((s, t))
                     nxt += dirn * auto['value']
+        auto['model_next'] = nxt
         counters['cadence_checked_' + auto['mode']] += len(want)
         if len(got) != len(want) or any(g[0] != w[0] or rt.dbits(g[1]) != rt.dbits(w[1]) for g, w in zip(got, want)):
             j = next((i for i, (g, w) in enumerate(zip(got, want)) if g[0] != w[0] or rt.dbits(g[1]) != rt.dbits(w[1])), min(len(got), len(want)))
@@ -180,8 +181,10 @@ def run_case(case):
     first_sizes = None
     sizes_prev = None
 
+    fopts = dict((p_, v_) for p_, v_ in spec.get('opts', {}).items() if p_ in ('ri_mercurius.L', 'ri_trace.S', 'ri_trace.S_peri'))
+
     def do_op(x, N):
-        nonlocal auto
+        nonlocal auto, sim
         op = None
         if N == 0 and x < 0.30:
             x = 0.35          # nothing to integrate: add instead
@@ -240,6 +243,8 @@ def run_case(case):
             sim.dt = dt0
             for pth, val in o.items():
                 gen.set_path(sim, pth, val)
+                if pth in ('ri_mercurius.L', 'ri_trace.S', 'ri_trace.S_peri'):
+                    fopts[pth] = val
         elif x < 0.70:
             op = dict(op='reset_integrator')
             sim.reset_integrator()
@@ -288,6 +293,40 @@ def run_case(case):
             sim.add(m=1e-9, r=0.05, x=d, y=0.0, vx=v)
             sim.add(m=2e-9, r=0.05, x=d + 0.3, y=0.0, vx=-v)
             counters['collision_pairs_added'] = counters.get('collision_pairs_added', 0) + 1
+        elif x < 0.875 and auto and use_hb and N >= 1 and sim.dt * dirn > 0:
+            # the documented restart: run until an automatic snapshot has just been written, lose the process, load the last snapshot
+            # of the file, arm the same schedule on the same file again (an unchanged period keeps the restored counter) and carry on:
+            # the schedule must continue as if nothing had happened - no snapshot twice, none missing
+            op = dict(op='restart_from_last_auto_snapshot')
+            got_ = 0
+            for _ in range(60 if auto['mode'] == 'interval' else auto['value'] + 2):
+                sim.integrate(sim.t + sim.dt, exact_finish_time=0)      # (only integrate() looks at the schedule)
+                got_ = harvest('auto')
+                if got_:
+                    break
+            if not got_:
+                counters['restart_not_reached'] = counters.get('restart_not_reached', 0) + 1
+                return op
+            check_cadence()       # close the books; the model's next due value carries over
+            if viol or 'model_next' not in auto:
+                return op
+            coll_ = sim.collision
+            sim = rebound.Simulation(fn)
+            if use_hb:
+                sim.heartbeat = hb
+            for p_, v_ in fopts.items():
+                try:
+                    gen.set_path(sim, p_, v_)
+                except Exception:
+                    pass
+            if coll_ != 'none':
+                sim.collision_resolve = 'merge'
+            if auto['mode'] == 'interval':
+                sim.save_to_file(fn, interval=auto['value'])
+            else:
+                sim.save_to_file(fn, step=auto['value'])
+            auto = dict(mode=auto['mode'], value=auto['value'], armed_at_steps=auto['model_next'], armed_at_t=auto['model_next'], first_index=len(expected), first_boundary=len(boundaries))
+            counters['restarts_from_auto_snapshot'] = counters.get('restarts_from_auto_snapshot', 0) + 1
         elif x < 0.90:
             op = dict(op='manual_snapshot')
             manual_snapshot()
